@@ -288,6 +288,15 @@ fn arc_replay(cases_path: &str, out_path: &str) {
             bad += 1;
             out.put(&json!({"kind": "mismatch", "what": "canon-image", "i": i, "case_kind": c["kind"], "got": got}));
         }
+        // (1b) a non-canonical image of the same content (reversed tables, duplicated text section)
+        if let Some(alt) = c.get("alt").and_then(|a| a.as_array()).filter(|a| !a.is_empty()) {
+            images += 1;
+            let got = arc_extract(&json_to_bytes(&Value::Array(alt.clone())));
+            if !arc_matches(&got, &c["expect"]) {
+                bad += 1;
+                out.put(&json!({"kind": "mismatch", "what": "alt-image", "i": i, "case_kind": c["kind"], "got": got}));
+            }
+        }
         // (2) the same content built through mila's own archive writer
         match build_image(&c["content"]) {
             Ok(b) => {
